@@ -22,6 +22,9 @@ SCRATCH = os.path.join(os.path.dirname(BUILD_ROOT.rstrip("/")), "scratch-c04") i
 def answer(line, mode):
     if mode == "echo":
         return line
+    if mode.endswith("+f3"):
+        f = line.split(b"\t")
+        return f[2] if len(f) > 2 else b""
     return b"<" + line.upper() + b">" + (b"\r" if mode.endswith("+cr") else b"")
 
 
@@ -166,6 +169,15 @@ def main(argv):
         jobs.append(([], None, None, [c.rng.choice([b"p", b"p\r", b"\r", b"q\rq", b""]) for _ in range(c.rng.randrange(1, 30))],
                      c.rng.choice(["echo", "eager+cr", "readall+cr", "stdio"]), 0))
 
+    # the answer to the first distinct key(s) is the EMPTY line and the key recurs (the cached empty answer must be
+    # distinguishable from "not answered yet"): empty input lines with the byte-copying child, and -k 1 with a
+    # child that prints field 3 of lines whose field 3 is empty
+    for mode in ("echo", "eager+f3", "block:7+f3", "readall+f3"):
+        jobs.append(([], None, None, [b"", b"", b"a", b"", b"b", b""], mode, 0))
+        jobs.append(([], None, None, [b"", b"x", b"", b"x", b""], mode, 0))
+    for mode in ("eager+f3", "stdio+f3", "readall+f3"):
+        jobs.append((["-k", "1"], "1", b"\t", [b"k1\tu\t\tw", b"k1\tv\t\tw", b"k2\tu\tC\tw", b"k1\tz\tD\tw", b"k3\tu\t\tw", b"k2\tq\t\tw", b"k3\tu\tE\tw"], mode, 0))
+        jobs.append((["-k", "1"], "1", b"\t", [b"e\t1\t\tz"] * 4 + [b"f\t1\tF\tz", b"e\t2\tG\tz"], mode, 0))
     # one first-occurrence line longer than both pipes with the byte-copying child (the enqueue-after-write deadlock)
     jobs.append(([], None, None, [b"a", b"L" * 300000, b"a"], "echo", 0))
     # collector catching up with the feeder exactly at a multiple of the queue's 1023-entry page while more
@@ -234,7 +246,7 @@ def main(argv):
             for l, k in zip(lines, keys):
                 ids.setdefault(k, len(ids))
                 items.append("%d:%s" % (ids[k], hexs(l)))
-            mlines.append("R %s %s" % ("e" if mode == "echo" else ("c" if mode.endswith("+cr") else "u"), " ".join(items)))
+            mlines.append("R %s %s" % ("e" if mode == "echo" else ("c" if mode.endswith("+cr") else ("f" if mode.endswith("+f3") else "u")), " ".join(items)))
             mjobs.append((job, out, log_data, trace))
     if drv is not None and mlines:
         rc, mout, merr = run_lines(drv, mlines, timeout=600)
